@@ -292,6 +292,8 @@ def gen_mask(rng, S, H, W):
         m = np.array([rng.choice([0.0, 0.25, 0.5, 0.75, 1.0, 1.0]) for _ in range(n)])
     else:
         m = np.array([rng.choice([0.0, 1.0, rng.random(), rng.random()]) for _ in range(n)])
+    if kind != "ones" and rng.chance(0.2):
+        m[rng.below(n)] = -0.0                     # a negative zero is a legal mask value in [0,1]
     return m.reshape(shp)
 
 
@@ -323,6 +325,18 @@ def gen_obj_case(rng, prec):
             mag[rng.below(n)] = 0.0
         ph = np.array([rng.uniform(-math.pi, math.pi) for _ in range(n)])
         raw = mag * np.exp(1j * ph)
+    special = rng.chance(0.3)
+    if special:
+        # exact zeros of either sign, values exactly on the amplitude threshold, infinite magnitudes (complex types only:
+        # a potential of +-inf has no baseline): the points where sgn / angle / abs / clamp based rewrites part ways
+        inf = float("inf")
+        pool = ([0.0, -0.0, 0.0, -0.0, 1.0, -1.0, 0.25, -0.25] if t == "potential" else
+                [0j, complex(-0.0, 0.0), complex(0.0, -0.0), complex(-0.0, -0.0), 0j, 1 + 0j, -1 + 0j, 1j, -1j, complex(0.6, 0.8),
+                 complex(-1.0, -0.0), complex(inf, 0.0), complex(0.0, -inf), complex(-inf, inf), complex(1e30, -1e30), complex(1e-30, 0.0)])
+        for _ in range(rng.randint(1, max(1, min(4, n)))):
+            raw[rng.below(n)] = rng.choice(pool)
+        if rng.chance(0.15):
+            raw[:] = rng.choice(pool[:4])          # an all-zero (zero-padded / untouched) starting array
     route = rng.weighted([("obj", 5), ("direct", 1), ("direct_none", 1)])
     mask = None if route == "direct_none" else gen_mask(rng, S, H, W)
     cons = {
@@ -336,7 +350,7 @@ def gen_obj_case(rng, prec):
     raw = rnd(raw, eff_prec(prec, inp))
     f = cons["fix_potential_baseline_factor"]
     case = {"stream": "object", "prec": prec, "type": t, "shape": [S, H, W], "route": route, "cons": cons,
-            "inp": inp, "minp": minp,
+            "inp": inp, "minp": minp, "special": special,
             "fkind": rng.choice(["float", "np64", "np32", "int"] if f == int(f) else (["float", "np64", "np32"] if f in (0.5, 1.25) else ["float", "np64"])),
             "thk": rng.choice(["float", "int", "list", "np"]),
             "raw": cx_to_list(raw) if t != "potential" else [float(x) for x in raw],
@@ -468,7 +482,11 @@ def gen_tomo_case(rng):
     if inp["layout"] == "neg":
         inp["layout"] = "swap"
     return {"stream": "tomo", "prec": "f32", "shape": shp, "positivity": rng.chance(0.7), "shrinkage": shr,
-            "inp": inp, "skind": rng.choice(["float", "np32", "np64"]), "raw": [float(x) for x in raw]}
+            "inp": inp, "skind": rng.choice(["float", "np32", "np64"]), "raw": [float(x) for x in raw],
+            # how the two entries reach the dictionary: one assignment, per-entry add_hard_constraint, with a rejected key in between;
+            # the falsy spellings of "no shrinkage" (False / None / 0 / 0.0 / -0.0) and of positivity (False / 0 / None, True / 1)
+            "via": rng.choice(["setter", "add", "setter_bad", "add_bad"]),
+            "shr_falsy": rng.choice(["False", "None", "0", "0.0", "-0.0"]), "pos_kind": rng.choice(["bool", "bool", "int", "none_if_false"])}
 
 
 # --------------------------------------------------------------------------------------
@@ -515,7 +533,7 @@ def check_object(ctx, drv, case, m, raw, cons, route, stream):
     prec, t = case["prec"], case["type"]
     S, H, W = raw.shape
     with torch.no_grad():
-        if route == "obj":
+        if route in ("obj", "dip_obj"):
             o = m.obj
             mk = m.mask
         elif route == "direct":
@@ -542,6 +560,23 @@ def check_object(ctx, drv, case, m, raw, cons, route, stream):
         if t == "complex" and float(np.abs(fwd).max()) > 1.0 + PTOL[prec]:
             ctx.pred_fail("complex-amp-gt-one:forward", "amplitude of the patches handed to the forward model exceeds one", small(case),
                           float(np.abs(fwd).max()), "<= 1")
+    if route == "dip_obj":
+        # ObjectDIP.forward hands patches of the RAW network output (times the mask) to the forward model: the hard constraints
+        # are only applied by the `obj` property.  Evaluated under its own key (known finding; `.obj` itself is checked below).
+        with torch.no_grad():
+            fwd = m.forward(torch.arange(H * W).reshape(1, H, W)).detach().numpy().astype(np.complex128).reshape(S, H * W)
+        what = None
+        if t == "complex" and float(np.abs(fwd).max()) > 1.0 + PTOL[prec]:
+            what = ("complex object: amplitude of the patches ObjectDIP.forward hands to the forward model exceeds one", float(np.abs(fwd).max()), "<= 1")
+        elif t == "pure_phase" and float(np.max(np.abs(np.abs(fwd) - 1.0))) > PTOL[prec]:
+            what = ("pure-phase object: amplitude of the patches ObjectDIP.forward hands to the forward model differs from one",
+                    float(np.abs(fwd).ravel()[np.argmax(np.abs(np.abs(fwd) - 1.0))]), 1.0)
+        elif bool(cons["identical_slices"]) and S > 1 and not all(np.array_equal(fwd[0], fwd[k]) for k in range(S)):
+            what = ("identical_slices requested but the patches ObjectDIP.forward hands to the forward model differ between slices",
+                    float(np.max(np.abs(fwd - fwd[0]))), 0.0)
+        ctx.dist[f"object_dip:forward-{'unconstrained' if what else 'admissible'}"] += 1
+        if what:
+            ctx.pred_fail("object-dip-forward-unconstrained", what[0], small(case), what[1], what[2])
     mexp = None if mk is None else np.real(mk.detach().numpy()).astype(np.float64).reshape(S, H * W)
     fov = bool(cons["apply_fov_mask"]) and mexp is not None
     ident = bool(cons["identical_slices"]) and S > 1
@@ -629,15 +664,46 @@ def run_tomo(ctx, drv, case):
     shp = tuple(case["shape"])
     raw = np.array(case["raw"], dtype=np.float32).reshape(shp)
     m = ObjectVoxelwise(shp, "cpu")
-    shr_in = scalar_as(case["shrinkage"], case.get("skind", "float")) if case["shrinkage"] is not None else False
-    m.hard_constraints = {"positivity": case["positivity"], "shrinkage": shr_in}
+    twin = ObjectVoxelwise(shp, "cpu")          # never configured: must keep the class defaults (nothing applied)
+    shr = case["shrinkage"]
+    if shr is None or shr == 0:
+        fk = case.get("shr_falsy", "False") if shr is None else case.get("shr_falsy", "0.0")
+        if shr == 0 and fk in ("False", "None"):
+            fk = "0.0"
+        shr_in = {"False": False, "None": None, "0": 0, "0.0": 0.0, "-0.0": -0.0}[fk]
+        lshr = {"b": False} if fk == "False" else (None if fk == "None" else {"n": bits([float(shr_in)])[0]})
+    else:
+        shr_in = scalar_as(shr, case.get("skind", "float"))
+        lshr = {"n": bits([np.float32(shr)])[0]}
+    pk = case.get("pos_kind", "bool")
+    pos_in = case["positivity"] if pk == "bool" else (int(case["positivity"]) if pk == "int" else (True if case["positivity"] else None))
+    lpos = None if pos_in is None else ({"b": bool(pos_in)} if isinstance(pos_in, bool) else {"n": bits([float(pos_in)])[0]})
+    via = case.get("via", "setter")
+    ctx.dist[f"tomo:via={via}"] += 1
+    if via.endswith("_bad"):
+        try:                                      # a rejected request first; the caller carries on
+            if via == "setter_bad":
+                m.hard_constraints = {"positivity": pos_in, "bogus_key": True, "shrinkage": shr_in}
+            else:
+                m.add_hard_constraint("bogus_key", True)
+            ctx.disagree("tomo-keyerror", small(case), "KeyError", "ok", "invalid hard-constraint key accepted")
+        except KeyError:
+            pass
+    if via.startswith("setter"):
+        m.hard_constraints = {"positivity": pos_in, "shrinkage": shr_in}
+    else:
+        m.add_hard_constraint("shrinkage", shr_in)
+        m.add_hard_constraint("positivity", pos_in)
     inp_dist(ctx, "tomo", case.get("inp"))
     m.obj = with_layout(raw, case.get("inp") or {"container": "torch", "width": 32}, "f32") if case.get("inp") else torch.tensor(raw)
+    twin.obj = torch.tensor(raw)
     impl = m.obj.detach().numpy().astype(np.float64).ravel()
-    shr = case["shrinkage"]
-    # python truthiness: `if self.hard_constraints["shrinkage"]` skips False and 0.0
-    lsh = None if not shr else bits([np.float32(shr)])[0]
-    rep = drv.ask({"op": "tomo", "positivity": bool(case["positivity"]), "shrinkage": lsh, "obj": bits(raw.astype(np.float64).ravel())})
+    # two live models of the class: configuring `m` must not configure `twin`
+    tw = twin.obj.detach().numpy().astype(np.float64).ravel()
+    if dict(twin.hard_constraints) != dict(ObjectVoxelwise.DEFAULT_HARD_CONSTRAINTS) or not np.array_equal(tw, raw.astype(np.float64).ravel()):
+        ctx.disagree("tomo-second-model", small(case), {"hard_constraints": canon_dict(ObjectVoxelwise.DEFAULT_HARD_CONSTRAINTS.items())},
+                     {"hard_constraints": canon_dict(twin.hard_constraints.items())}, "configuring one tomography object changed another one")
+    rep = drv.ask({"op": "tomo_d", "pos": lpos, "shr": lshr, "obj": bits(raw.astype(np.float64).ravel())})
     ctx.count()
     ctx.dist[f"tomo:positivity={case['positivity']}:shrinkage={'none' if shr is None else ('zero' if shr == 0 else 'pos')}"] += 1
     if raw.size > 1:
@@ -951,6 +1017,10 @@ def gen_cons_history_case(rng, prec):
     # make the seeded kind of history frequent: a property-relevant request that is not the last one
     if rng.chance(0.5):
         ops.insert(0, {"op": "add", "k": "identical_slices", "v": True})
+    # configure, READ, reconfigure, read again: constrained reads in the middle of the history, the assignment of the class
+    # defaults that PtychographyBase.reset_recon makes, reset() of the object model (raw parameter back to the initial array)
+    for _ in range(rng.weighted([(0, 2), (1, 3), (2, 2)])):
+        ops.insert(rng.randint(1, len(ops)), {"op": rng.weighted([("read", 4), ("reset_defaults", 2), ("reset_obj", 1)])})
     inp, minp = gen_inp(rng), gen_inp(rng)
     raw = rnd(raw, eff_prec(prec, inp))
     return {"stream": "cons_history", "prec": prec, "type": t, "shape": [S, H, W], "ops": ops, "inp": inp, "minp": minp,
@@ -988,12 +1058,32 @@ def run_cons_history(ctx, drv, case):
         if rejected_layout(ctx, "cons_history", case.get("inp"), e) or rejected_layout(ctx, "cons_history", case.get("minp"), e):
             return
         raise
-    defaults = dict(ObjectPixelated.DEFAULT_CONSTRAINTS)
+    defaults = dict(DEFAULTS_SNAPSHOT.get("object") or ObjectPixelated.DEFAULT_CONSTRAINTS)
     allowed = list(defaults.keys())
     init_items = list(om.constraints.items())
-    ref = dict(init_items)                      # independent oracle: last writer wins over the defaults
+    ref = dict(defaults)                        # independent oracle: last writer wins over the class defaults
+    if canon_dict(init_items) != canon_dict(defaults.items()):
+        ctx.disagree("cons_history", small(case), canon_dict(defaults.items()), canon_dict(init_items), "a freshly built model does not start from the class defaults")
     lean_ops, impl_res, ref_res = [], [], []
     for op in case["ops"]:
+        if op["op"] == "read":          # a constrained read in the middle of the history, against the requests made SO FAR
+            check_object(ctx, drv, case, om, raw, {k: ref[k] for k in CONS_KEYS_REL}, "obj", "cons_history")
+            continue
+        if op["op"] == "reset_obj":
+            om.reset()
+            continue
+        if op["op"] == "reset_defaults":
+            items = list(defaults.items())
+            lean_ops.append({"op": "set", "items": [[k, v] for k, v in items]})
+            try:
+                om.constraints = type(om).DEFAULT_CONSTRAINTS
+                r = "ok"
+            except KeyError:
+                r = "KeyError"
+            ref.update(defaults)
+            ref_res.append("ok")
+            impl_res.append((r, canon_dict(om.constraints.items()), 1))
+            continue
         if op["op"] == "add":
             lean_ops.append({"op": "add", "k": op["k"], "v": op["v"]})
             try:
@@ -1102,6 +1192,10 @@ def probe_intensity_predicate(ctx, case, arr, M, wreq, label, wtol):
     if abs(tot - M) > wtol * M:
         ctx.pred_fail(f"initial-probe-total-intensity:history:{label}", "total diffraction intensity of the (re-)initialised probe "
                       "differs from the mean intensity of that call", small(case), tot, M)
+    if mode_I.shape != np.shape(wreq):
+        ctx.pred_fail(f"initial-probe-weights:history:{label}", "the (re-)initialised probe does not have one mode per requested weight",
+                      small(case), (mode_I / M).tolist(), np.asarray(wreq).tolist())
+        return
     dw = float(np.max(np.abs(mode_I / M - wreq)))
     if dw > wtol:
         ctx.pred_fail(f"initial-probe-weights:history:{label}", "relative mode intensities of the (re-)initialised probe differ from "
@@ -1211,10 +1305,541 @@ def run_gs_clamp(ctx, drv, case):
                       "(residual norm below the absolute clamp_min(1e-12))", small(case), Iout.tolist(), Iin.tolist())
 
 
+
+# --------------------------------------------------------------------------------------
+# growth round 5: histories with REJECTED calls (compared with an untouched twin), several live models of one class,
+# alternative (DIP) entry points, pinned class defaults
+def enc_img3(a):
+    return [[enc_cx_row(r) for r in p] for p in np.asarray(a, dtype=np.complex128)]
+
+
+def dec_img3(x):
+    return np.array([[dec_cx_row(r) for r in p] for p in x])
+
+
+def gen_stack(rng, n, H, W, ep):
+    """n random modes on H x W pixels, condition number <= 50, mode intensities pairwise >= 5% apart"""
+    while True:
+        st = np.array([cgauss(rng, H * W) * 10.0 ** rng.uniform(-0.7, 0.7) for _ in range(n)])
+        st = rnd(st, ep)
+        nn = np.linalg.norm(st, axis=1)
+        sv = np.linalg.svd(st / nn[:, None], compute_uv=False)
+        I = np.sort(nn ** 2)
+        if sv[0] / sv[-1] <= 50 and (n == 1 or float(np.min(I[1:] / I[:-1])) >= 1.05):
+            return st.reshape(n, H, W)
+
+
+def gen_probe_ops_case(rng, prec):
+    n = rng.weighted([(1, 1), (2, 4), (3, 4), (4, 2)])
+    while True:
+        H, W = rng.randint(2, 5), rng.randint(2, 5)
+        if H * W >= 2 * n:
+            break
+    inp = gen_inp(rng)
+    ep = eff_prec(prec, inp)
+
+    def gen_w(kind=None):
+        kind = kind or rng.weighted([("default", 2), ("random", 4), ("unnormalised", 3)])
+        if kind == "default":
+            return None
+        if kind == "random":
+            w = [rng.uniform(0.05, 1.0) for _ in range(n)]
+            return [x / sum(w) for x in w]
+        return [float(rng.randint(1, 9)) for _ in range(n)]
+
+    def gen_op():
+        kind = rng.weighted([("set_weights", 3), ("set_weights_bad", 4), ("set_initial", 3), ("set_initial_bad", 3),
+                             ("set_probe", 2), ("set_probe_bad", 2), ("reset", 2), ("cons_bad", 1)])
+        if kind == "set_weights":
+            return {"op": kind, "w": gen_w(), "cont": rng.choice(["list", "tuple", "np64", "np32", "t32", "t64"])}
+        if kind == "set_weights_bad":
+            L = rng.choice([k for k in (0, 1, 1, 1, n - 1, n + 1, 2 * n) if k != n and k >= 0])
+            return {"op": kind, "w": [float(rng.randint(1, 9)) for _ in range(L)], "cont": rng.choice(["list", "tuple", "np64", "t32"])}
+        if kind == "set_initial":
+            return {"op": kind, "M": 10.0 ** rng.uniform(-1, 5), "mkind": rng.choice(["float", "np64", "np0d", "t0d64"])}
+        if kind == "set_initial_bad":
+            why = rng.choice(["M0", "Mneg", "Mnegzero", "roi", "roiT"])
+            if why == "roiT" and H == W:
+                why = "roi"
+            return {"op": kind, "why": why, "M": 10.0 ** rng.uniform(-1, 3)}
+        if kind == "set_probe":
+            return {"op": kind, "stack": cx_to_list(gen_stack(rng, n, H, W, ep))}
+        if kind == "set_probe_bad":
+            return {"op": kind, "why": rng.choice(["modes+", "cols+"] + (["modes-"] if n > 1 else []))}
+        return {"op": kind}
+
+    ops = [gen_op() for _ in range(rng.randint(2, 6))]
+    # the history always ends with a valid (re-)initialisation that is then read
+    ops.append({"op": "set_initial", "M": 10.0 ** rng.uniform(-1, 5), "mkind": "float"})
+    return {"stream": "probe_ops", "prec": prec, "n": n, "roi": [H, W], "w": gen_w(), "wcont": rng.choice(["list", "np64", "t32"]),
+            "seed": rng.below(1 << 30), "inp": inp, "stack": cx_to_list(gen_stack(rng, n, H, W, ep)), "ops": ops}
+
+
+def run_probe_ops(ctx, drv, case):
+    """one ProbePixelated driven through valid AND rejected public calls; an identically seeded twin receives the valid calls
+    only.  After every call: error kind and state vs the Lean state machine (from the same pre-state), state vs the twin bit
+    for bit; after every accepted set_initial_probe the intensity / weight predicate against the last ACCEPTED request."""
+    import torch
+    prec = case["prec"]
+    set_prec(prec)
+    n = case["n"]
+    H, W = case["roi"]
+    inp = case.get("inp")
+    stack = cx_from_list(case["stack"], (n, H, W))
+    inp_dist(ctx, "probe_ops", inp)
+    mk = lambda: make_probe(stack, prec, False, inp=inp, rng=case["seed"], initial_probe_weights=seq_as(case["w"], case.get("wcont", "list")))
+    try:
+        pm, twin, ramp_src = mk(), mk(), mk()
+    except ValueError as e:
+        if rejected_layout(ctx, "probe_ops", inp, e):
+            return
+        raise
+    cd = pm.initial_probe.dtype
+    ep = eff_prec(prec, inp)
+    tol = TOL[ep]
+    wtol = max(PTOL[ep], 2e-6)
+    recip = np.array([0.05, 0.05])
+    dflt = np.array([1 - 0.02 * (n - 1)] + [0.02] * (n - 1))
+    norm = lambda w: dflt if w is None else np.array(w, dtype=np.float64) / float(np.sum(w))
+    wreq = norm(case["w"])
+    ctx.count()
+    ctx.dist[f"probe_ops:{ep}:n={n}:ops={len(case['ops'])}"] += 1
+    kinds = tuple(o["op"] for o in case["ops"])
+    ctx.mark(("probe_ops", ep, n, kinds[:4]))
+    ctx.sample({k: case[k] for k in case if k not in ("stack", "ops")} | {"ops": [o["op"] + (":" + o["why"] if "why" in o else "") for o in case["ops"]]})
+
+    def state(m):
+        return (m.initial_probe_weights.detach().numpy().astype(np.float64).copy(),
+                m.initial_probe.detach().numpy().astype(np.complex128).copy(),
+                m._probe.detach().numpy().astype(np.complex128).copy())
+
+    def call(m, op):
+        """perform `op` on model `m`; returns the exception class name or 'ok'"""
+        k = op["op"]
+        try:
+            if k in ("set_weights", "set_weights_bad"):
+                m.initial_probe_weights = seq_as(op["w"], op.get("cont", "list"))
+            elif k == "set_initial":
+                m.set_initial_probe((H, W), recip, scalar_as(op["M"], op.get("mkind", "float")))
+            elif k == "set_initial_bad":
+                why = op["why"]
+                roi = {"roi": (H, W + 1), "roiT": (W, H)}.get(why, (H, W))
+                M = {"M0": 0.0, "Mneg": -abs(op["M"]), "Mnegzero": -0.0}.get(why, op["M"])
+                m.set_initial_probe(roi, recip, M)
+            elif k == "set_probe":
+                m.probe = cx_from_list(op["stack"], (n, H, W))
+            elif k == "set_probe_bad":
+                shp = {"modes+": (n + 1, H, W), "modes-": (n - 1, H, W), "cols+": (n, H, W + 1)}[op["why"]]
+                m.probe = np.ones(shp, dtype=np.complex128)
+            elif k == "reset":
+                m.reset()
+            elif k == "cons_bad":
+                m.add_constraint("bogus_key", True)
+            return "ok"
+        except (ValueError, KeyError, TypeError, RuntimeError) as e:
+            return type(e).__name__
+
+    rejected_before = False
+    lean_hist = []
+    w_init = state(pm)[0]
+    for i, op in enumerate(case["ops"]):
+        k = op["op"]
+        ctx.dist[f"probe_ops:op={k}" + (":" + op["why"] if "why" in op else "")] += 1
+        pre = state(pm)
+        lop = None
+        if k in ("set_weights", "set_weights_bad"):
+            lop = {"op": "set_weights", "w": None if op["w"] is None else bits(np.array(op["w"], dtype=np.float32))}
+        elif k == "set_initial":
+            ramps = ramp_src._apply_random_phase_shifts(torch.ones((n, H, W), dtype=cd)).detach().numpy().astype(np.complex128)
+            lop = {"op": "set_initial", "roi": [H, W], "M": bits([op["M"]])[0], "ramps": enc_img3(ramps)}
+        elif k == "set_initial_bad":
+            why = op["why"]
+            roi = {"roi": [H, W + 1], "roiT": [W, H]}.get(why, [H, W])
+            M = {"M0": 0.0, "Mneg": -abs(op["M"]), "Mnegzero": -0.0}.get(why, op["M"])
+            lop = {"op": "set_initial", "roi": roi, "M": bits([M])[0], "ramps": enc_img3(np.ones((n, H, W)))}
+        elif k == "set_probe":
+            lop = {"op": "set_probe", "p": enc_img3(cx_from_list(op["stack"], (n, H, W)))}
+        elif k == "set_probe_bad":
+            shp = {"modes+": (n + 1, H, W), "modes-": (n - 1, H, W), "cols+": (n, H, W + 1)}[op["why"]]
+            lop = {"op": "set_probe", "p": enc_img3(np.ones(shp))}
+        elif k == "reset":
+            lop = {"op": "reset"}
+        r = call(pm, op)
+        bad = k.endswith("_bad")
+        if not bad:
+            rt = call(twin, op)
+            if rt != "ok":
+                ctx.disagree("probe_ops", small(case), "ok", rt, f"valid call {i} ({k}) rejected on the twin")
+        if k in ("set_weights", "set_weights_bad") and not bad:
+            wreq = norm(op["w"])
+        post = state(pm)
+        # --- one step of the Lean state machine from the same pre-state
+        if lop is not None:
+            lean_hist.append(lop)
+            rep = drv.ask({"op": "probe_ops", "n": n, "roi": [H, W], "w": bits(pre[0]), "stack": enc_img3(pre[1]), "param": enc_img3(pre[2]),
+                           "orth": True, "ops": [lop]})
+            if "ok" not in rep:
+                ctx.disagree("probe_ops", small(case), rep, "ok", "driver error")
+                return
+            st = rep["ok"]["steps"][0]
+            if st["r"] != r:
+                ctx.disagree("probe_ops", small(case), st["r"], r, f"error kind of call {i} ({k}{':' + op['why'] if 'why' in op else ''})")
+            mw = dec_real(st["w"])
+            okw = mw.shape == post[0].shape and (mw.size == 0 or float(np.max(np.abs(mw - post[0]))) <= 1e-6)
+            if not okw:
+                ctx.disagree("probe_ops-weights", small(case), mw.tolist(), post[0].tolist(), f"stored weights after call {i} ({k})")
+            if k != "set_weights" and okw:      # (the model's float64 normalisation differs from the stored float32 by 1 ulp32)
+                for nm, mv, iv in (("initial_probe", dec_img3(st["initial"]), post[1]), ("raw probe", dec_img3(st["param"]), post[2])):
+                    ok, d = close(iv, mv, tol)
+                    ctx.stat_max(f"probe_ops:{ep}:max_rel_dist", d if d != float("inf") else 1e300)
+                    if not ok:
+                        ctx.disagree("probe_ops", small(case), cx_to_list(mv)[:8], cx_to_list(iv)[:8], f"{nm} after call {i} ({k}): rel dist {d:.3g}")
+                        break
+        elif r != "KeyError":
+            ctx.disagree("probe_ops", small(case), "KeyError", r, f"error kind of call {i} (invalid constraint key)")
+        # --- exception safety: a rejected call leaves NOTHING behind (state equals the twin's, bit for bit)
+        tw = state(twin)
+        for nm, a, b in zip(("initial_probe_weights", "initial_probe", "raw probe"), post, tw):
+            if a.shape != b.shape or not np.array_equal(a, b):
+                ctx.disagree("probe_ops-twin", small(case), b.ravel()[:8].tolist() if not np.iscomplexobj(b) else cx_to_list(b)[:8],
+                             a.ravel()[:8].tolist() if not np.iscomplexobj(a) else cx_to_list(a)[:8],
+                             f"{nm} differs from a twin that never received the rejected calls, after call {i} ({k})")
+                break
+        if bad and r == "ok":
+            rejected_before = True     # accepted an invalid request: the model already reported it
+        if bad:
+            rejected_before = True
+        # --- predicate after every accepted (re-)initialisation: the last ACCEPTED request decides
+        if k == "set_initial" and r == "ok":
+            label = "after-rejected-call" if rejected_before else "valid-calls-only"
+            probe_intensity_predicate(ctx, case, post[1], float(op["M"]), wreq, label, wtol)
+        elif k == "set_initial" and r != "ok":
+            ctx.pred_fail("initial-probe-raises:history", "a valid set_initial_probe raised after an earlier call on the model had been rejected"
+                          if rejected_before else "a valid set_initial_probe raised", small(case), r, "ok")
+            return
+    # --- whole-history: the stored weights are the last accepted request (Lean `lastAcceptedWeights`, python oracle)
+    rep = drv.ask({"op": "probe_ops", "n": n, "roi": [H, W], "w": bits(w_init),
+                   "stack": enc_img3(stack), "orth": True, "ops": [o for o in lean_hist if o["op"] == "set_weights"]})
+    wfin = state(pm)[0]
+    if "ok" in rep:
+        wl = dec_real(rep["ok"]["wlast"])
+        if wl.shape != wfin.shape or wreq.shape != wfin.shape or float(np.max(np.abs(wl - wfin), initial=0.0)) > 1e-6 \
+                or float(np.max(np.abs(wreq - wfin), initial=0.0)) > 1e-6:
+            ctx.disagree("probe_ops-weights", small(case), wl.tolist(), wfin.tolist(), "stored weights after the history vs the last accepted request")
+    else:
+        ctx.disagree("probe_ops", small(case), rep, "ok", "driver error")
+    # --- the probe handed to the forward model after the final (re-)initialisation
+    out = pm.probe.detach().numpy().astype(np.complex128)
+    par = state(pm)[2]
+    if out.shape != (n, H, W) or par.shape != (n, H, W):
+        ctx.disagree("probe_ops", small(case), [n, H, W], [list(out.shape), list(par.shape)], "shape of the probe after the history")
+        return
+    out, par = out.reshape(n, H * W), par.reshape(n, H * W)
+    nn = np.linalg.norm(par, axis=1)
+    if np.all(nn > 0) and np.all(np.isfinite(nn)):
+        sv = np.linalg.svd(par / nn[:, None], compute_uv=False)
+        if sv[-1] > 0 and sv[0] / sv[-1] <= 50:
+            gs_predicate(ctx, case, par, out, PTOL[ep] if ep == "f64" else 5e-5, ":history")
+        else:
+            ctx.dist["probe_ops:final-read-skipped:ill-conditioned"] += 1
+
+
+def _reg_values(rng, cls, k):
+    if cls == "object":
+        return gen_cons_value(rng, k)
+    if cls == "probe":
+        return {"orthogonalize_probe": rng.chance(0.4), "center_probe": False}.get(k, rng.choice([0.0, 0.5]))
+    return {"positivity": rng.chance(0.5), "shrinkage": rng.choice([False, 0.0, 0.25, 0.5])}.get(k, rng.chance(0.5))
+
+
+REG_KEYS = {"object": CONS_KEYS_REL * 3 + ["tv_weight_xy", "tv_weight_z", "surface_zero_weight", "butterworth_order"],
+            "probe": ["orthogonalize_probe"] * 3 + ["center_probe", "tv_weight"],
+            "tomo": ["positivity"] * 3 + ["shrinkage"] * 2 + ["fourier_filter", "circular_mask"]}
+REG_FLIP = {"object": [("positivity", False), ("identical_slices", True), ("apply_fov_mask", True), ("fix_potential_baseline", True)],
+            "probe": [("orthogonalize_probe", False)], "tomo": [("positivity", False), ("positivity", True)]}
+
+
+def gen_registry_case(rng, prec):
+    cls = rng.weighted([("object", 5), ("probe", 3), ("tomo", 2)])
+    n0 = rng.weighted([(2, 3), (3, 1)])
+    nmod = n0
+    ops = []
+    if cls == "tomo":       # the defaults claim nothing: first request positivity on every model
+        ops += [{"op": "add", "i": j, "k": "positivity", "v": True} for j in range(n0) if rng.chance(0.7)]
+    # the seeded kind of history made frequent: ONE model is switched to the non-default value of a property-relevant key
+    if rng.chance(0.7):
+        k, v = rng.choice(REG_FLIP[cls])
+        ops.append({"op": rng.choice(["add", "set"]), "i": rng.below(n0), "k": k, "v": v})
+        if ops[-1]["op"] == "set":
+            ops[-1] = {"op": "set", "i": ops[-1]["i"], "items": [[k, v]]}
+    for _ in range(rng.randint(1, 5)):
+        kind = rng.weighted([("add", 4), ("set", 3), ("add_bad", 1), ("set_bad", 1), ("reset_defaults", 1), ("new", 1)])
+        i = rng.below(nmod)
+        if kind == "new":
+            if nmod >= 4:
+                continue
+            nmod += 1
+            ops.append({"op": "new"})
+        elif kind == "add":
+            k = rng.choice(REG_KEYS[cls])
+            ops.append({"op": "add", "i": i, "k": k, "v": _reg_values(rng, cls, k)})
+        elif kind == "add_bad":
+            ops.append({"op": "add", "i": i, "k": "bogus_key", "v": True})
+        elif kind == "reset_defaults":
+            ops.append({"op": "reset_defaults", "i": i})
+        else:
+            ks = rng.sample(sorted(set(REG_KEYS[cls])), rng.randint(1, min(3, len(set(REG_KEYS[cls])))))
+            if kind == "set_bad":
+                ks.insert(rng.randint(0, len(ks)), "bogus_key")
+            ops.append({"op": "set", "i": i, "items": [[k, True if k == "bogus_key" else _reg_values(rng, cls, k)] for k in ks]})
+    if rng.chance(0.4) and nmod < 4:
+        ops.append({"op": "new"})       # a model built AFTER the others were configured relies on the class defaults
+    return {"stream": "registry", "prec": prec, "cls": cls, "type": rng.choice(["complex", "pure_phase", "potential", "potential"]),
+            "n0": n0, "ops": ops, "shape": [rng.randint(1, 2), rng.randint(1, 3), rng.randint(2, 3)], "n": rng.randint(2, 3),
+            "roi": [rng.randint(2, 3), rng.randint(3, 4)], "rawseed": rng.below(1 << 30), "route": "obj"}
+
+
+DEFAULTS_SNAPSHOT = {}
+
+
+def class_defaults():
+    """the three class-level default dictionaries (deep copies)"""
+    import copy
+    from quantem.diffractive_imaging.object_models import ObjectConstraints
+    from quantem.diffractive_imaging.probe_models import ProbeConstraints
+    from quantem.tomography.object_models import ObjectConstraints as TomoConstraints
+    return {"object": copy.deepcopy(ObjectConstraints.DEFAULT_CONSTRAINTS), "probe": copy.deepcopy(ProbeConstraints.DEFAULT_CONSTRAINTS),
+            "tomo": copy.deepcopy(TomoConstraints.DEFAULT_HARD_CONSTRAINTS)}
+
+
+def run_registry(ctx, drv, case):
+    """several live models of ONE class; valid and rejected configuration calls addressed to any of them; then EVERY model is
+    read and checked against ITS OWN requests (python oracle) -- configuring model A must not configure model B, and a model
+    built later starts from the class defaults.  Dictionaries vs the Lean registry (`regStep`) after every call."""
+    import torch
+    from qv.prng import Rng
+    from quantem.diffractive_imaging.object_models import ObjectPixelated
+    from quantem.tomography.object_models import ObjectVoxelwise
+    prec, cls, t = case["prec"], case["cls"], case["type"]
+    set_prec(prec)
+    snap = DEFAULTS_SNAPSHOT.get(cls) or class_defaults()[cls]
+    allowed = list(snap.keys())
+    S, H, W = case["shape"]
+    n = case["n"]
+    rh, rw = case["roi"]
+    models, raws, refs = [], [], []
+
+    def build():
+        j = len(models)
+        rng = Rng(case["rawseed"] + 7919 * j)
+        if cls == "object":
+            cnt = S * H * W
+            if t == "potential":
+                raw = np.array([gauss(rng) for _ in range(cnt)]).reshape(S, H, W)
+            else:
+                raw = (np.array([rng.uniform(0.0, 2.0) for _ in range(cnt)]) * np.exp(1j * np.array([rng.uniform(-3.0, 3.0) for _ in range(cnt)]))).reshape(S, H, W)
+            raw = rnd(raw, prec)
+            m = ObjectPixelated.from_array(raw.copy(), slice_thicknesses=1.0 if S > 1 else None, obj_type=t)
+            m._initialize_obj((S, H, W), (1.0, 1.0))
+            m.mask = rnd(gen_mask(rng, S, H, W), prec)
+        elif cls == "probe":
+            raw = gen_stack(rng, n, rh, rw, prec)
+            m = make_probe(raw, prec, False)
+        else:
+            raw = rnd(np.array([gauss(rng) for _ in range(S * H * W)]), "f32").reshape(S, H, W)
+            m = ObjectVoxelwise((S, H, W), "cpu")
+            m.obj = torch.tensor(raw.astype(np.float32))
+        models.append(m)
+        raws.append(raw)
+        refs.append(dict(snap))       # independent oracle: every model starts from the class defaults ...
+
+    cdict = (lambda m: m.hard_constraints) if cls == "tomo" else (lambda m: m.constraints)
+
+    def do(m, op):
+        try:
+            if op["op"] == "add":
+                (m.add_hard_constraint if cls == "tomo" else m.add_constraint)(op["k"], op["v"])
+            elif op["op"] == "set":
+                if cls == "tomo":
+                    m.hard_constraints = dict((k, v) for k, v in op["items"])
+                else:
+                    m.constraints = dict((k, v) for k, v in op["items"])
+            else:   # what PtychographyBase.reset_recon does: assign the class defaults
+                if cls == "tomo":
+                    m.hard_constraints = type(m).DEFAULT_HARD_CONSTRAINTS
+                else:
+                    m.constraints = type(m).DEFAULT_CONSTRAINTS
+            return "ok"
+        except KeyError:
+            return "KeyError"
+
+    for _ in range(case["n0"]):
+        build()
+    ctx.count()
+    ctx.dist[f"registry:{cls}:models={case['n0']}:ops={len(case['ops'])}"] += 1
+    ctx.mark(("registry", cls, t if cls == "object" else "", case["n0"], tuple(o["op"] for o in case["ops"])[:4]))
+    ctx.sample({k: case[k] for k in case})
+    impl_steps = []
+    for op in case["ops"]:
+        ctx.dist[f"registry:op={op['op']}"] += 1
+        if op["op"] == "new":
+            build()
+            r = "ok"
+        else:
+            j = op["i"]
+            r = do(models[j], op)
+            # ... and only the requests addressed to it are applied (entries before an invalid key stay applied)
+            items = [(op["k"], op["v"])] if op["op"] == "add" else (list(snap.items()) if op["op"] == "reset_defaults" else [(k, v) for k, v in op["items"]])
+            for k, v in items:
+                if k not in snap:
+                    break
+                refs[j][k] = v
+        impl_steps.append({"r": r, "reg": [canon_dict(cdict(m).items()) for m in models]})
+    rep = drv.ask({"op": "registry", "allowed": allowed, "defaults": [[k, v] for k, v in snap.items()], "n0": case["n0"], "ops": case["ops"]})
+    if "ok" not in rep:
+        ctx.disagree("registry", small(case), rep, "ok", "driver error")
+    else:
+        for i, (ms, im) in enumerate(zip(rep["ok"]["steps"], impl_steps)):
+            mreg = [canon_dict((k, v) for k, v in d) for d in ms["reg"]]
+            if ms["r"] != im["r"] or mreg != im["reg"]:
+                ctx.disagree("registry", small(case), {"r": ms["r"], "reg": mreg}, im, f"constraint dictionaries of all live models after call {i}")
+                break
+        fin = rep["ok"]["steps"][-1]["reg"] if rep["ok"]["steps"] else []
+        for j, al in enumerate(rep["ok"]["alone"]):
+            if al is not None and al != fin[j]:
+                ctx.disagree("registry-model", small(case), al, fin[j], f"Lean: model {j} run alone differs from its registry entry")
+    now = class_defaults()[cls]
+    if canon_dict(now.items()) != canon_dict(snap.items()):
+        ctx.disagree("class-defaults", small(case), canon_dict(snap.items()), canon_dict(now.items()),
+                     f"the class-level default constraints of the {cls} models changed while models were configured")
+    # --- read EVERY model; the predicate is evaluated against that model's own requests
+    for j, m in enumerate(models):
+        ref = refs[j]
+        if canon_dict(cdict(m).items()) != canon_dict(ref.items()):
+            ctx.dist["registry:state_differs_from_request"] += 1
+        sub = dict(case)
+        sub["read_model"] = j
+        if cls == "object":
+            cons = {k: ref[k] for k in CONS_KEYS_REL}
+            check_object(ctx, drv, sub, m, raws[j], cons, "obj", "registry")
+        elif cls == "probe":
+            out = m.probe.detach().numpy().astype(np.complex128).reshape(n, rh * rw)
+            par = raws[j].reshape(n, rh * rw)
+            ctx.count()
+            if ref["orthogonalize_probe"]:
+                gs_predicate(ctx, sub, par, out, PTOL[prec] if prec == "f64" else 5e-5, ":second-model" if j else ":first-model")
+            elif not np.array_equal(out, rnd(par, prec)):
+                ctx.disagree("registry-probe", small(sub), cx_to_list(par)[:6], cx_to_list(out)[:6], "orthogonalisation off: probe is not the raw parameter")
+        else:
+            impl = m.obj.detach().numpy().astype(np.float64).ravel()
+            ctx.count()
+            tv = lambda v: None if v is None else ({"b": v} if isinstance(v, bool) else {"n": bits([np.float32(v)])[0]})
+            rp = drv.ask({"op": "tomo_d", "pos": tv(ref["positivity"]), "shr": tv(ref["shrinkage"]), "obj": bits(raws[j].astype(np.float64).ravel())})
+            if "ok" in rp:
+                ok, d = close(impl, dec_real(rp["ok"]["obj"]), TOL["f32"])
+                if not ok:
+                    ctx.disagree("registry-tomo", small(sub), dec_real(rp["ok"]["obj"]).tolist(), impl.tolist(), f"model {j}: rel dist {d:.3g}")
+            if ref["positivity"] and not np.all(impl >= 0.0):
+                ctx.pred_fail("tomo-negative:second-model" if j else "tomo-negative:first-model", "tomography object has negative values although "
+                              "positivity was requested for THIS model", small(sub), float(impl.min()), ">= 0")
+
+
+class _IdentityNet:
+    """built lazily (torch import): a network that returns its input -- the DIP classes then hand the generated raw array to
+    the same hard constraints through their own `obj` / `probe` properties"""
+    net = None
+
+    @classmethod
+    def make(cls, dtype):
+        import torch
+        import torch.nn as nn
+        if cls.net is None:
+            class Id(nn.Module):
+                def __init__(self, dt):
+                    super().__init__()
+                    self.dtype = dt
+                    self.scale = nn.Parameter(torch.ones(1, dtype=dt))
+
+                def forward(self, x):
+                    return x            # (x * 1 would already lose signed zeros and turn inf into NaN in complex arithmetic)
+            cls.net = Id
+        return cls.net(dtype)
+
+
+def run_object_dip(ctx, drv, case):
+    """alternative entry point: `ObjectDIP.obj` (network output -> apply_hard_constraints) with an identity network"""
+    import torch
+    from quantem.diffractive_imaging.object_models import ObjectDIP
+    prec, t = case["prec"], case["type"]
+    S, H, W = case["shape"]
+    set_prec(prec)
+    cons = dict(case["cons"])
+    raw = (cx_from_list(case["raw"], (S, H, W)) if t != "potential" else np.array(case["raw"], dtype=np.float64).reshape(S, H, W))
+    raw = rnd(raw, prec)
+    cd = (torch.complex64 if prec == "f32" else torch.complex128) if t != "potential" else (torch.float32 if prec == "f32" else torch.float64)
+    m = ObjectDIP.from_model(_IdentityNet.make(cd), torch.tensor(raw).type(cd), num_slices=S, slice_thicknesses=1.0 if S > 1 else None,
+                             input_noise_std=0.0, obj_type=t)
+    m.constraints = dict(cons)
+    if case["mask"] is not None:
+        m.mask = rnd(np.array(case["mask"]["v"], dtype=np.float64).reshape(case["mask"]["shape"]), prec)
+    else:
+        m.mask = np.ones((H, W))
+    check_object(ctx, drv, case, m, raw, cons, "dip_obj", "object_dip")
+
+
+def check_defaults(ctx, drv):
+    """the class defaults the Lean model declares (Model/Constraints.lean `objDefaultCons`, ...) against the class attributes"""
+    rep = drv.ask({"op": "defaults"})
+    now = class_defaults()
+    ctx.count()
+    if "ok" not in rep:
+        ctx.disagree("class-defaults", {"stream": "defaults"}, rep, "ok", "driver error")
+        return
+    want = rep["ok"]
+    for cls in ("object", "probe", "tomo"):
+        for k, mv in want[cls].items():
+            if isinstance(mv, dict):
+                mv = mv["b"] if "b" in mv else b2f_(mv["n"])
+            elif isinstance(mv, int) and not isinstance(mv, bool):
+                mv = b2f_(mv)
+            iv = now[cls].get(k, "<missing>")
+            same = (iv is mv) if isinstance(mv, bool) or mv is None else (not isinstance(iv, bool) and isinstance(iv, (int, float)) and float(iv) == mv)
+            if not same:
+                ctx.disagree("class-defaults", {"stream": "defaults", "cls": cls, "key": k}, mv, repr(iv), f"default of {cls} constraint '{k}'")
+
+
+def b2f_(n):
+    return float(np.array([n], dtype=np.uint64).view(np.float64)[0])
+
+
 RUNNERS["gs_clamp"] = run_gs_clamp
 RUNNERS["pipeline"] = run_pipeline
 RUNNERS["cons_history"] = run_cons_history
 RUNNERS["probe_history"] = run_probe_history
+RUNNERS["probe_ops"] = run_probe_ops
+RUNNERS["registry"] = run_registry
+RUNNERS["object_dip"] = run_object_dip
+
+
+def _in_real_code(e):
+    import os
+    import traceback
+    repo_src = os.path.join(os.path.realpath(os.environ.get("QVERIF_REPO", "/repo")), "src", "quantem")
+    fr = [f for f in traceback.extract_tb(e.__traceback__) if os.path.realpath(f.filename).startswith(repo_src)]
+    return f"{os.path.relpath(fr[-1].filename, repo_src)}:{fr[-1].lineno} in {fr[-1].name}" if fr else None
+
+
+def run_case(ctx, drv, stream, case):
+    """one case; an exception raised INSIDE the real code where the unchanged tree raises none is a broken tie for this case
+    (recorded, the run goes on so that the other streams can still exhibit a failing input); anything else propagates"""
+    try:
+        RUNNERS[stream](ctx, drv, case)
+    except Exception as e:
+        where = _in_real_code(e)
+        if where is None or isinstance(e, (RuntimeError,)) and "driver" in str(e):
+            raise
+        ctx.disagree("exception-in-real-code", small(case), "no exception (the harness completes on the unchanged tree)",
+                     f"{type(e).__name__}: {str(e)[:200]}", f"raised at {where}")
 
 
 def run(ctx):
@@ -1223,12 +1848,16 @@ def run(ctx):
     saved = {"dtype_real": config.get("dtype_real"), "dtype_complex": config.get("dtype_complex")}
     drv = Driver("C10")
     try:
+        if not DEFAULTS_SNAPSHOT:
+            DEFAULTS_SNAPSHOT.update(class_defaults())      # before any model of this run is built
+        check_defaults(ctx, drv)
         if not ctx.search_mode:
-            run_object(ctx, drv, CEX_CASE)
-            run_gs_clamp(ctx, drv, CLAMP_CASE)
+            run_case(ctx, drv, "object", CEX_CASE)
+            run_case(ctx, drv, "gs_clamp", CLAMP_CASE)
         plan = [("object", ctx.n(260, 20000)), ("tomo", ctx.n(30, 1000)), ("gs", ctx.n(110, 8000)),
                 ("gs_exact", ctx.n(60, 5000)), ("weights", ctx.n(90, 6000)), ("pipeline", ctx.n(8, 60)),
-                ("cons_history", ctx.n(80, 3000)), ("probe_history", ctx.n(50, 2000))]
+                ("cons_history", ctx.n(80, 3000)), ("probe_history", ctx.n(50, 2000)),
+                ("probe_ops", ctx.n(90, 3000)), ("registry", ctx.n(90, 3000)), ("object_dip", ctx.n(40, 1500))]
         idx = 0
         for stream, cnt in plan:
             for _ in range(cnt):
@@ -1249,9 +1878,16 @@ def run(ctx):
                     case = gen_pipeline_case(rng)
                 elif stream == "cons_history":
                     case = gen_cons_history_case(rng, prec)
-                else:
+                elif stream == "probe_history":
                     case = gen_probe_history_case(rng, prec)
-                RUNNERS[stream](ctx, drv, case)
+                elif stream == "probe_ops":
+                    case = gen_probe_ops_case(rng, prec)
+                elif stream == "registry":
+                    case = gen_registry_case(rng, prec)
+                else:
+                    case = gen_obj_case(rng, prec)
+                    case["stream"], case["route"] = "object_dip", "obj"
+                run_case(ctx, drv, stream, case)
     finally:
         drv.close()
         config.set(saved)
